@@ -343,7 +343,7 @@ def compress(E, a, mask, node):
     a_off, a_str = a.off, a.stride
     clo = lambda i: src(a_off + g(i) * a_str)
     r = E.new_arr(m, a.ty, clo, a.kind)
-    r.meta = {'compress_of': (a, mask, g, cnt)}
+    r.meta = {'compress_of': (a, mask, g, cnt), 'cmap': (m, g, cnt)}
     return r
 
 
@@ -654,7 +654,38 @@ def arr_store(E, a, idx, v, node):
             E.oblige('lib-pre', z3.Or(mn <= n, z3.BoolVal(False)), node, 'index array in range')
             heap[a.ident] = lambda j, old=old: E.ite(z3.And(j >= 0, j < mn, zbool(msrc(mask.off + j * mask.stride))), val, old(j))
             return
-        raise Unsupported('integer-array store')
+        if a.stride != 1 or not _is0(a.off) or isinstance(v, Arr):
+            raise Unsupported('integer-array store through a view / of an array')
+        # a[idx] = scalar for an arbitrary integer index array: the positions hit are exactly the (wrapped) entries of
+        # idx - membership as an uninterpreted predicate with its two defining axioms (every entry is hit; every hit
+        # position has a witness entry)
+        m = idx.n if not isinstance(idx.n, int) else z3.IntVal(idx.n)
+        isrc, i_off, i_str = heap[idx.ident], idx.off, idx.stride
+        raw = lambda k: to_int(isrc(i_off + k * i_str))
+        norm = lambda k: z3.If(raw(k) < 0, n + raw(k), raw(k))
+        k = z3.Int(fresh_name('k'))
+        E.oblige('lib-pre', z3.ForAll([k], z3.Implies(z3.And(k >= 0, k < m), z3.And(raw(k) >= -n, raw(k) < n))),
+                 node, 'store indices in range')
+        # the membership predicate depends only on the index array's contents and the wrapped length: one predicate per
+        # (index array snapshot, length), shared by every store through it
+        skey = ('scatter-set', idx.ident, id(isrc), str(i_off), i_str, str(m), str(n))
+        known = E.st.ghost.get(skey)
+        if known is None:
+            hit = z3.Function(fresh_name('hit'), z3.IntSort(), z3.BoolSort())
+            wit = z3.Function(fresh_name('wit'), z3.IntSort(), z3.IntSort())
+            j = z3.Int(fresh_name('j'))
+            ax = [z3.ForAll([k], z3.Implies(z3.And(k >= 0, k < m), hit(norm(k))), patterns=[raw(k)]),
+                  z3.ForAll([j], z3.Implies(hit(j), z3.And(wit(j) >= 0, wit(j) < m, norm(wit(j)) == j)), patterns=[hit(j)])]
+            for f in ax:
+                E.assumptions_quant(f)
+            E.st.ghost[skey] = known = (hit, wit, ax)
+        hit, wit, ax = known
+        val = conv(v)
+        cnt = len(E.st.ghost.setdefault('scatter', []))
+        E.st.ghost['scatter'].append(dict(arr=a, idx=idx, hit=hit, wit=wit, m=m, norm=norm, raw=raw, line=getattr(node, 'lineno', None)))
+        E.st.ghost.setdefault('facts', {})['scatter#%d' % (cnt + 1)] = ax
+        heap[a.ident] = lambda j, old=old: E.ite(z3.And(j >= 0, j < n, hit(j)), val, old(j))
+        return
     raise Unsupported('array store index %r' % (idx,))
 
 
